@@ -87,6 +87,19 @@ type gen struct {
 	l0       *big.Int // liabilities at trace start
 	prev     *storagesc.VerifStorageSnap
 	lastRes  world.Result
+	// free-storage markers accepted in this trace, exactly as they were sent (the driver's own memory: what it
+	// replays must not depend on what the contract still remembers)
+	fmDone []doneMarker
+	reregd map[string]bool // assigners re-registered (add_free_storage_assigner for an existing name) in this trace
+
+	spareKey *world.Key // second signing key an assigner can be re-registered with (key rotation)
+}
+
+type doneMarker struct {
+	from   *world.Key
+	signer *world.Key
+	in     interface{}
+	op     opInfo
 }
 
 func init() { common.Register("storage", Run) }
@@ -145,11 +158,10 @@ func Run(a common.Args) {
 	// directed scenarios (after the random traces, so that their ids do not move the random ones): the
 	// histories behind the suspected defects DESIGN §7 #18 and #6 and the repeated kill, played to the end
 	{
-		// scenario 4 always runs; scenarios 1-3 with scen=1
-		// scenarios 4 and 5 always run; scenarios 1-3 with scen=1
-		ks := []int{4, 5}
+		// scenarios 4-7 always run; scenarios 1-3 with scen=1
+		ks := []int{4, 5, 6, 7}
 		if extraInt(a.Extra, "scen", 0) > 0 {
-			ks = []int{1, 2, 3, 4, 5}
+			ks = []int{1, 2, 3, 4, 5, 6, 7}
 		}
 		for _, k := range ks {
 			id++
@@ -297,6 +309,12 @@ func (g *gen) buildBase() {
 		g.must(g.sc(w.Owner, "add_free_storage_assigner", map[string]interface{}{
 			"name": as.name, "public_key": as.key.Pub, "individual_limit": lim[0], "total_limit": lim[1]}, 0), "add assigner "+as.name)
 	}
+	// fa3 is known to the driver (and to the snapshot query) but not registered in the base block: traces register
+	// it for the first time; fa1x is a second signing key for re-registrations that rotate an assigner's key
+	fa3 := &assigner{name: "fa3"}
+	fa3.key = w.NewKey(fa3.name)
+	g.assigners = append(g.assigners, fa3)
+	g.spareKey = w.NewKey("fa1x")
 	g.nextBlock(5, 1)
 	// allocation A1: owner c1 on b1,b2,b3 (2 data + 1 parity), 128 MB per blobber, with some data written
 	g.allocs = nil
